@@ -243,6 +243,7 @@ NoPairs == {}
 PairsQuick == {<<x, y>> \in K4 \X K4 : ~(x = "O" /\ y = "O")}
 PairsDeep  == {<<x, y>> \in K5 \X K5 : ~(x = "O" /\ y = "O")}
 PairsFull  == {<<x, y>> \in Kinds \X Kinds : ~(x = "O" /\ y = "O")}
+PairsRefDeep == {p \in PairsFull : Cardinality(Involved(p[1], p[2])) <= 3}
 
 Str(log) == [i \in 1..Len(log) |-> log[i].mid \o ":" \o log[i].so]
 Publish == (Dump /\ IsCase /\ ~allpy) =>
